@@ -36,7 +36,7 @@ CLAIMS = {
             "Decides: only _set_parent/Base.__init__ assign .parent; Base.__new__ parents the children of every node it builds before init/return "
             "(typestate over its paths); every init stores what it is given into items/content; _set_parent and walk both fully descend into "
             "lists and tuples and walk is a recursive pre-order traversal in list order; get_root follows .parent; no matcher reuses a node "
-            "object (350 matchers). Not decided: stale parents after backtracking through the per-line cache. Also: _set_parent links unconditionally; raw object construction only inside __new__ on cls; no shallow copies of nodes in the parser/reader; explicit-stack traversals recognised.", "DESIGN.md §4 C10"),
+            "object (350 matchers). Not decided: stale parents after backtracking through the per-line cache. Also: _set_parent links unconditionally; raw object construction only inside __new__ on cls; no shallow copies of nodes in the parser/reader; explicit-stack traversals recognised. Also: child containers of a constructed node are not changed in place without re-parenting; the reader replays no stored item.", "DESIGN.md §4 C10"),
     "C18": ("interface agreement between __getnewargs__ and __new__ over the class hierarchy; abstract interpretation of __new__ under the copy flag; reachable-state lint (values copy/pickle refuse) over the classes reachable from a node; back-reference lint on the reader",
             "Decides: for each of 661 node classes the tuple returned by the resolved __getnewargs__ binds to the resolved __new__, the _deepcopy "
             "flag is True and under it __new__ returns a fresh object without running a matcher (each distinct __new__ interpreted abstractly, "
@@ -55,7 +55,7 @@ CLAIMS = {
     "C07": ("consistency lint on message construction; who-raises-with-what; shared counter/span dataflow",
             "Decides (narrow): a quoted source line is source_lines[linecount-1] of the reader whose linecount is printed; every "
             "FortranSyntaxError is raised with the function's reader; the line counter moves by one per line taken/given back on every path "
-            "and item spans are tied to it. Not decided: how far look-ahead advanced the counter when the error is raised. Also: the clean-up run while a syntax error propagates cannot replace it by SymbolTableError/ValueError (case-blind table keys, guarded str.index).", "DESIGN.md §4 C07"),
+            "and item spans are tied to it. Not decided: how far look-ahead advanced the counter when the error is raised. Also: the clean-up run while a syntax error propagates cannot replace it by SymbolTableError/ValueError (case-blind table keys, guarded str.index). Also: no ';' line is dropped before the parser sees it; a free-form label is one digit group.", "DESIGN.md §4 C07"),
     "C11": ("per-call-site abstract interpretation of the block engine (class list, consumed=>restored typestate); item typestate; sibling cross-check; sibling rule on the inline flag",
             "Decides: comment/include/preprocessor (and under process_directives, directive) classes are in the class list tried at every "
             "position of all 38 block-engine instances and around program units, both collectors in every round; every reader item and node "
@@ -87,7 +87,7 @@ CLAIMS = {
             "Decides: Cpp_*_Stmt classes == CPP_CLASS_NAMES; for the 14 directive kinds of the property the reader's '#' predicate and exactly "
             "the expected class's head pattern accept the canonical samples; backslash continuation yields one CppDirective item before any "
             "Fortran interpretation; the directive matcher is tried at every position and gives its peeked item back; directives before a "
-            "failed construct are restored; ';' splitting looks at the tokenised line only. Not decided: position equality for every insertion. Also: match_cpp_directive tries the whole registry for every line; directive items are not ';'-split; backslash-newline splicing adds or removes nothing at the joints (table). Further: in fixed form no '#' line is classed as a comment line (all strict/f2py combinations).",
+            "failed construct are restored; ';' splitting looks at the tokenised line only. Not decided: position equality for every insertion. Also: match_cpp_directive tries the whole registry for every line; directive items are not ';'-split; backslash-newline splicing adds or removes nothing at the joints (table). Further: in fixed form no '#' line is classed as a comment line (all strict/f2py combinations). Also: alternative include delimiters recorded (1 known finding, F43).",
             "DESIGN.md §4 C14"),
     "C16": ("oracle set comparison; shared scope typestate; dominance of the shadowing lookup over every intrinsic match; must-pass-through for registration; table agreement on the import-time snapshot",
             "Decides: scoping classes == the property's list and each opens a block-engine call site; enter/exit pairing on all paths; lookup "
@@ -99,18 +99,18 @@ CLAIMS = {
             "identity tests name the 2008 overrides; by-name constructions of overridden classes are covered; no 2008 class/keyword reachable "
             "from the 2003 grammar; each 2008-only construct reachable from Program in 2008; reachable matchers resolve their names; 2008 "
             "matchers that delegate try the 2003 form first, re-implementing ones include the 2003 keyword language; no shared mutable class "
-            "state; the factory always relinks. Not decided: text equality of the two parsers' output. Also: a class body that aliases another class's table never mutates it (33 derived tables); every 2003 intrinsic is a 2008 intrinsic with the same arity bounds.", "DESIGN.md §4 C17"),
+            "state; the factory always relinks. Not decided: text equality of the two parsers' output. Also: a class body that aliases another class's table never mutates it (33 derived tables); every 2003 intrinsic is a 2008 intrinsic with the same arity bounds. Also: a 2003 matcher records an optional keyword its 2008 override records (1 known finding, F41).", "DESIGN.md §4 C17"),
     "C01": ("abstract interpretation of match return shapes (following engine delegation with bound class arguments) vs. printer index usage; per-None-pattern abstract interpretation of printers; must-pass-through",
             "Decides necessary conditions of the round trip: every class that can build a node resolves a printer; the tuple arities every match "
             "can return are accepted by the resolved init and agree with the constant indices, format conversion counts, unpack counts and "
             "length guards of the resolved printer (310 classes); every element that can hold a node or input text is read by the printer "
-            "(243 classes). Not decided: equality of trees/text after re-parsing. Also: elements read in value position (R3 refined), block printers, WORDClsBase as a table, dead input pieces, the intrinsic arity error is raised only after the shadowing lookup, optional elements printed/dereferenced only under a None test (per None-pattern, 138 classes), content[start_idx]. Further: text cut behind a delimiter found with find()/index() starts exactly len(delimiter) later (115 sites), keyword prefix tests compare len(KEYWORD) characters and the text continues there (83).", "DESIGN.md §4 C01"),
+            "(243 classes). Not decided: equality of trees/text after re-parsing. Also: elements read in value position (R3 refined), block printers, WORDClsBase as a table, dead input pieces, the intrinsic arity error is raised only after the shadowing lookup, optional elements printed/dereferenced only under a None test (per None-pattern, 138 classes), content[start_idx]. Further: text cut behind a delimiter found with find()/index() starts exactly len(delimiter) later (115 sites), keyword prefix tests compare len(KEYWORD) characters and the text continues there (83). Also decided as tables: SeparatorBase, KeywordValueBase, SequenceBase; per None-pattern every content element is printed on every printer path (240 classes).", "DESIGN.md §4 C01"),
     "C02": ("path-sensitive may-taint (placeholder text must pass the inverse map before reaching a constructor); case-folding lint on leaf flows; ownership/shape lints",
             "Decides: literal-bearing leaves store input text without case folding; in the 52 functions that tokenise a line no child node is "
             "built from placeholder-bearing text; Program.match returns what it collected (1 known finding); no reader error becomes "
             "end-of-input (1 known finding); all 118 line-level classes print label and construct name through StmtBase.tofortran, which "
             "includes label/name/text on every path; the inverse map is bounded and ordered; give-backs are reversed; splitquote never "
-            "folds literals; arity/element coverage shared with C01; consumed nodes kept or restored. Not decided: token-sequence equality. Also: nested-key expansion in string_replace_map per occurrence; string engines as tables; case folding only outside String items; ';' splitter (empty parts skipped). Further: delimiter offsets and keyword prefixes (shared with C01); handle_inline_comment with splitquote decided as a table (20 rows: '!' inside literals, doubled quotes, continued literals).",
+            "folds literals; arity/element coverage shared with C01; consumed nodes kept or restored. Not decided: token-sequence equality. Also: nested-key expansion in string_replace_map per occurrence; string engines as tables; case folding only outside String items; ';' splitter (empty parts skipped). Further: delimiter offsets and keyword prefixes (shared with C01); handle_inline_comment with splitquote decided as a table (20 rows: '!' inside literals, doubled quotes, continued literals). Also: an optional keyword a matcher skips is recorded (1 known finding, F41); alternative delimiter pairs are recorded (1 known finding, F42); per-pattern printing of every content element; no length test contradicts an earlier length guard.",
             "DESIGN.md §4 C02"),
     "C19": ("prefix viability of printed keywords on the sre parse tree of each class's matcher; attribute-protocol and purity lints; may-taint of tokenised text over the 85 process_item methods; queue-discipline lint; finite table of the label field",
             "Decides over fparser.one's statement classes: the literal keyword prefix each printer emits is a viable prefix of the class's own "
